@@ -50,15 +50,26 @@ Theorem C07_reestablish_starts_empty : forall (cs : list cfg) (es : list (nat * 
 Proof. exact reestablish_starts_empty. Qed.
 Print Assumptions C07_reestablish_starts_empty.
 
+(* Exactly its own contribution, nothing else's: whatever the other sessions did (flaps of sessions sharing the
+   local AS or the cluster id included), an Established session's local AS - and its cluster id if it is a route
+   reflector client - is still a contributing one, so that paths carrying them are still hidden ([apply_poison]). *)
+Theorem C07_loop_detection_intact : forall (cs : list cfg) (es : list (nat * ev)) (i : nat) (c : cfg) (s : sess),
+  nth_sess (y_sess (reach cs es)) i = Some (c, s) ->
+  s_st s = Established -> c_v4 c || c_v6 c = true ->
+  0 < rc_count (y_asn (reach cs es)) (c_las c) /\
+  (c_rr c = true -> 0 < rc_count (y_cid (reach cs es)) (cluster_of c)).
+Proof. exact loop_detection_intact. Qed.
+Print Assumptions C07_loop_detection_intact.
+
 (* Non-vacuity: two sessions; session 0 (rewriting import policy) installs two routes and is then torn
    down by an undecodable UPDATE; session 1's route and refcount share stay. *)
 Definition ex_c0 : cfg :=
   {| c_las := 65001; c_pas := 65002; c_rid := 10; c_hold := 90; c_v4 := true; c_v6 := false;
-     c_apr4 := false; c_aps4 := false; c_apr6 := false; c_aps6 := false; c_mp4 := false;
+     c_apr4 := false; c_aps4 := false; c_apr6 := false; c_aps6 := false; c_mp4 := false; c_nx4 := false;
      c_role := 0; c_strict := false; c_rr := false; c_cluster := 0; c_imp := ImpRewrite; c_passive := false |}.
 Definition ex_c1 : cfg :=
   {| c_las := 65001; c_pas := 65003; c_rid := 10; c_hold := 90; c_v4 := true; c_v6 := false;
-     c_apr4 := false; c_aps4 := false; c_apr6 := false; c_aps6 := false; c_mp4 := false;
+     c_apr4 := false; c_aps4 := false; c_apr6 := false; c_aps6 := false; c_mp4 := false; c_nx4 := false;
      c_role := 0; c_strict := false; c_rr := false; c_cluster := 0; c_imp := ImpAccept; c_passive := false |}.
 Definition ex_o (a : N) : open_msg := {| o_ver := 4; o_asn := a; o_hold := 90; o_id := 7; o_caps := [CapASN4 a] |}.
 Definition ex_hist : list (nat * ev) :=
